@@ -140,6 +140,9 @@ impl Generator
 		self.local_parameters.clear();
 		self.local_variables.clear();
 		self.local_labeled_blocks.clear();
+		// The declarations of snprintf, write and abort live in the previous
+		// module and must be declared again in the new one.
+		self.used_intrinsics.clear();
 
 		Ok(())
 	}
